@@ -75,7 +75,9 @@ def run_cube(pixels, nd, st, sp, api, dtype="int16", groups=None, dask=False, nd
             g = np.zeros(T, dtype="int16")
             out = gammastd_grp(arr, g, 1, nd, np.array([[st, sp]], dtype="int16"))
         else:
-            time = pd.date_range("2000-01-01", periods=T, freq="10D")
+            # stamps at midnight, at noon (the CF convention for daily / dekadal means) and at an odd clock time, in turn: the
+            # calibration bounds are instants of the axis, and the default window is the whole axis whatever the time of day
+            time = pd.date_range(["2000-01-01", "2000-01-01 12:00", "2000-01-01 18:30"][(T // 2 + len(pixels)) % 3], periods=T, freq="10D")
             # how nodata reaches the accessor: attribute only / argument only / both and different (the argument wins)
             attrs = {"attr": {"nodata": nd}, "arg": {}, "both": {"nodata": (0 if nd != 0 else -1)}}[ndmode]
             da = xr.DataArray(arr, dims=("y", "x", "time"), coords={"time": time}, attrs=attrs)
